@@ -972,13 +972,18 @@ class Server:
             connection=connection,
         )
         pending = {
-            asyncio.create_task(self.greeting(connection, "")),
             response_writer,
             asyncio.create_task(self.parse_command(stream)),
         }
         self.connections[key] = connection
         handlers = set()
         try:
+            # session is admitted or refused before any of its commands is
+            # looked at: refused one is not served while its "421" is written
+            if not await self.greeting(connection, ""):
+                if not response_writer.done():
+                    await response_queue.join()
+                return
             while True:
                 done, pending = await asyncio.wait(
                     pending | connection.extra_workers,
